@@ -52,9 +52,11 @@ def pb(b):
     return [len(b)] + list(b)
 
 
-def encode_frame(code, f):
-    """f = canonical field list (coq/Model/FramesIO.v frame_fields); returns wire bytes"""
-    out = bytearray(varint(code))
+def encode_frame(code, f, enc=None):
+    """f = canonical field list (coq/Model/FramesIO.v frame_fields); returns wire bytes.
+    `enc` replaces the minimal varint encoder (used to produce legal non-minimal encodings, RFC 9000 §16)"""
+    enc = enc or varint
+    out = bytearray(enc(code))
     it = iter(f)
 
     def nxt():
@@ -67,64 +69,64 @@ def encode_frame(code, f):
         pass
     elif code in (ACK, ACK_ECN):
         largest, delay, first, n = nxt(), nxt(), nxt(), nxt()
-        out += varint(largest) + varint(delay) + varint(n) + varint(first)
+        out += enc(largest) + enc(delay) + enc(n) + enc(first)
         for _ in range(n):
-            out += varint(nxt()) + varint(nxt())
+            out += enc(nxt()) + enc(nxt())
         if nxt() == 1:
-            out += varint(nxt()) + varint(nxt()) + varint(nxt())
+            out += enc(nxt()) + enc(nxt()) + enc(nxt())
     elif code == RESET_STREAM:
-        out += varint(nxt()) + varint(nxt()) + varint(nxt())
+        out += enc(nxt()) + enc(nxt()) + enc(nxt())
     elif code == STOP_SENDING:
-        out += varint(nxt()) + varint(nxt())
+        out += enc(nxt()) + enc(nxt())
     elif code == CRYPTO:
         off = nxt()
         d = nbytes()
-        out += varint(off) + varint(len(d)) + d
+        out += enc(off) + enc(len(d)) + d
     elif code == NEW_TOKEN:
         d = nbytes()
-        out += varint(len(d)) + d
+        out += enc(len(d)) + d
     elif STREAM <= code <= STREAM + 7:
         sid, off, lb, fin = nxt(), nxt(), nxt(), nxt()
         d = nbytes()
-        out += varint(sid)
+        out += enc(sid)
         if off != 0:
-            out += varint(off)
+            out += enc(off)
         if lb:
-            out += varint(len(d))
+            out += enc(len(d))
         out += d
     elif code in (MAX_DATA, DATA_BLOCKED, RETIRE_CONNECTION_ID, REMOVE_ADDRESS, MAX_STREAMS_BI, MAX_STREAMS_UNI,
                   STREAMS_BLOCKED_BI, STREAMS_BLOCKED_UNI):
-        out += varint(nxt())
+        out += enc(nxt())
     elif code in (MAX_STREAM_DATA, STREAM_DATA_BLOCKED):
-        out += varint(nxt()) + varint(nxt())
+        out += enc(nxt()) + enc(nxt())
     elif code == NEW_CONNECTION_ID:
         seq, rpt = nxt(), nxt()
         cid = nbytes()
         tok = nbytes()
-        out += varint(seq) + varint(rpt) + bytes([len(cid)]) + cid + tok
+        out += enc(seq) + enc(rpt) + bytes([len(cid)]) + cid + tok
     elif code in (PATH_CHALLENGE, PATH_RESPONSE):
         out += nbytes()
     elif code == CLOSE_QUIC:
         k, ft = nxt(), nxt()
         r = nbytes()
-        out += varint(k) + varint(ft) + varint(len(r)) + r
+        out += enc(k) + enc(ft) + enc(len(r)) + r
     elif code == CLOSE_APP:
         c = nxt()
         r = nbytes()
-        out += varint(c) + varint(len(r)) + r
+        out += enc(c) + enc(len(r)) + r
     elif code in (DATAGRAM, DATAGRAM_LEN):
         d = nbytes()
         if code == DATAGRAM_LEN:
-            out += varint(len(d))
+            out += enc(len(d))
         out += d
     elif code in (ADD_ADDRESS4, ADD_ADDRESS6):
         seq, port, ip, tire, nat = nxt(), nxt(), nxt(), nxt(), nxt()
-        out += varint(seq) + port.to_bytes(2, "big") + ip.to_bytes(16 if code == ADD_ADDRESS6 else 4, "big") + varint(tire) + varint(nat)
+        out += enc(seq) + port.to_bytes(2, "big") + ip.to_bytes(16 if code == ADD_ADDRESS6 else 4, "big") + enc(tire) + enc(nat)
     elif code in (PUNCH_ME_NOW4, PUNCH_ME_NOW6):
         l, r, port, ip, tire, nat = nxt(), nxt(), nxt(), nxt(), nxt(), nxt()
-        out += varint(l) + varint(r) + port.to_bytes(2, "big") + ip.to_bytes(16 if code == PUNCH_ME_NOW6 else 4, "big") + varint(tire) + varint(nat)
+        out += enc(l) + enc(r) + port.to_bytes(2, "big") + ip.to_bytes(16 if code == PUNCH_ME_NOW6 else 4, "big") + enc(tire) + enc(nat)
     elif code in (PUNCH_HELLO, PUNCH_DONE):
-        out += varint(nxt()) + varint(nxt()) + varint(nxt())
+        out += enc(nxt()) + enc(nxt()) + enc(nxt())
     else:
         raise ValueError(code)
     return bytes(out)
@@ -142,6 +144,16 @@ def data_len(code, f):
 
 
 VALID_ERROR_KINDS = list(range(0, 0x11)) + [0x100, 0x128, 0x1ff]
+
+
+def widening_encoder(rng):
+    """a varint encoder that picks, at random, a wider-than-necessary (still legal) encoding"""
+    def enc(x):
+        w = varint_size(x)
+        if rng.random() < 0.5:
+            w = rng.choice([k for k in (1, 2, 4, 8) if k >= w])
+        return varint_nonminimal(x, w)
+    return enc
 
 
 def rand_varint(rng):
